@@ -121,6 +121,12 @@ def w_plans(idx):
         Node.store.clear()
         root = build(items, fault, random.Random(i))
         evs.append(record_expand(root, {"items": items, "fault": fault}))
+        # the same plan on a tree that carries what an XML import leaves behind: a default namespace (key None) next to a prefixed one
+        Node.store.clear()
+        root = build(items, fault, random.Random(i))
+        root.add_namespace(None, "https://eml.ecoinformatics.org/eml-2.2.0")
+        root.add_namespace("xsi", "http://www.w3.org/2001/XMLSchema-instance")
+        evs.append(record_expand(root, {"items": items, "fault": fault, "namespaces": "default + prefixed, as after from_xml"}))
     return evs
 
 
